@@ -261,8 +261,16 @@ class AstToSqlVisitor(visitor.NodeVisitor):
             if suffix:
                 res = res + f" || '{suffix}'"
         else:
-            res = str(arg.val).replace("%", "%%").replace("_", "__")  # type: ignore
+            val = str(arg.val)  # type: ignore
+            # '%' and '_' are wildcards in LIKE patterns, a literal one needs an
+            # escape character:
+            res = val.replace("\\", "\\\\").replace("%", "\\%").replace("_", "\\_")
+            needs_escape = res != val
+            # Double single quotes, like any other string constant:
+            res = res.replace("'", "''")
             res = "'" + prefix + res + suffix + "'"
+            if needs_escape:
+                res += " ESCAPE '\\'"
         return res
 
     def sqlfunc_contains(self, *args: ast._Node) -> str:
